@@ -213,10 +213,16 @@ func c18Oracle(c *fw.Ctx, w *vs.World, name string, prm c18Params, st *c18State)
 		return
 	}
 	closedByDeadline := false
-	for _, cl := range st.calls {
+	for i, cl := range st.calls {
 		dir := "read"
 		if cl.op == "W" || cl.op == "W0" {
 			dir = "write"
+		}
+		// the state of the connection after this call: what the next call found (a later call
+		// may close the connection legitimately, e.g. a Read whose deadline fires while it waits)
+		closedAfter := st.p.Closed
+		if i+1 < len(st.calls) {
+			closedAfter = st.calls[i+1].closedPrev
 		}
 		if cl.closedPrev || closedByDeadline {
 			continue // the connection was already closed: every call fails, nothing to judge
@@ -238,7 +244,7 @@ func c18Oracle(c *fw.Ctx, w *vs.World, name string, prm c18Params, st *c18State)
 				violate(c, w, name, "C18/expired-deadline-not-enforced/"+dir+"/"+role, fmt.Sprintf("%s at %v returned (%d, %v) although the %s deadline passed at %v and was not reset", cl.op, time.Duration(cl.t0), cl.n, cl.err, dir, time.Duration(cl.dl)))
 				return
 			}
-			if st.p.Closed && !closedByDeadline {
+			if closedAfter && !closedByDeadline {
 				// nothing else in these programs closes the connection
 				violate(c, w, name, "C18/idle-deadline-closes-connection/"+dir+"/"+role, fmt.Sprintf("the %s deadline passed at %v while no call was active; %s then failed correctly but the connection was closed", dir, time.Duration(cl.dl), cl.op))
 				return
